@@ -67,6 +67,18 @@ Theorem C05_append_commits : forall (h : hstate) (sid : Z) (name : string) (sp :
 Proof. exact op_append_valid. Qed.
 Print Assumptions C05_append_commits.
 
+(* A path that is not literally the key of an existing file is never committed: a commit naming a file under an alias
+   spelling ("data//f", "data/./f", "data/x/../f": the file data/f only to a filesystem) leaves the table unchanged, whatever
+   else is true of the table -- the model has no notion of a schema, so the refusal cannot depend on one.  Together with
+   C05_history: no retained snapshot ever references a file under a spelling the listing cannot produce. *)
+Theorem C05_alias_never_committed : forall (h : hstate) (sid : Z) (newdata : list (string * Z)) (newmans : list (string * list string * Z))
+    (kept : list string) (lname : string) (lmt : Z) (expire : option (Z -> bool)) (mn : string) (es : list string) (mt : Z) (e : string),
+  In (mn, es, mt) newmans -> In e es ->
+  has_key (resolve e) (h_store h) = false -> str_mem (resolve e) (map (fun q => data_key (fst q)) newdata) = false ->
+  hstep h (HCommit sid newdata newmans kept lname lmt expire) = h.
+Proof. exact commit_alias_rejected. Qed.
+Print Assumptions C05_alias_never_committed.
+
 (* Non-vacuity: a table located at "data" (the location that made the unrepaired normalisation delete
    every live file) with two retained snapshots sharing a manifest, an orphan data file, an orphan
    manifest, a file younger than the grace period and a live transaction's file: well-formed, the run
@@ -117,3 +129,13 @@ Example C05_history_nonvacuous :
   /\ map fst (h_store (run_hist ex_ops)) =
        ["metadata/inflight/t.inflight"; "data/t"; "data/b"; "metadata/manifests/m2"; "metadata/manifests/l2"; "data/a"; "metadata/manifests/m1"].
 Proof. split; vm_compute; reflexivity. Qed.
+
+(* Non-vacuity of C05_alias_never_committed: after the first commit of ex_ops the file data/a exists; a second commit naming it
+   as "data//a" (or "data/./a", "data/x/../a") changes nothing, while the canonical spellings commit. *)
+Definition ex_h1 : hstate := run_hist [HCommit 1 [("a", 1000)] [("m1", ["/data/a"], 1000)] [] "l1" 1000 None].
+Example C05_alias_nonvacuous :
+  hstep ex_h1 (HCommit 2 [] [("m2", ["data//a"], 1000)] [] "l2" 1000 None) = ex_h1
+  /\ hstep ex_h1 (HCommit 2 [] [("m2", ["data/./a"], 1000)] [] "l2" 1000 None) = ex_h1
+  /\ hstep ex_h1 (HCommit 2 [] [("m2", ["data/x/../a"], 1000)] [] "l2" 1000 None) = ex_h1
+  /\ h_cur (hstep ex_h1 (HCommit 2 [] [("m2", ["//data/a"], 1000)] [] "l2" 1000 None)) = Some 2.
+Proof. repeat split; vm_compute; reflexivity. Qed.
